@@ -3,6 +3,11 @@ package registry
 
 import (
 	"os"
+	"runtime"
+	"strconv"
+	"time"
+
+	"verifharness/conc"
 
 	"verifharness/pure"
 
@@ -67,4 +72,30 @@ func init() {
 		},
 		Rule: "case = 12 queue worlds + 8 application worlds + 6 ask scripts + 4 node-collection scripts built from the seed with the real constructors; every world is sorted repeatedly through the real sortQueues/sortApplications (candidates come from Go maps, so every call presents another permutation) and every pair the policy distinguishes must appear in the policy's order in every call; non-trivial = the case had queue pairs the policy distinguishes and tied pairs; distinct by sha256 of the world descriptions",
 		Assumptions: []string{"the sort keys (current priority, fair share from CompUsageRatio(Separately), submission time, pending size) are read with the core's own exported getters: the monitor judges order-independence, not the arithmetic of the keys (that is C18)", "node order is compared on scores recomputed from the current utilisation with a 1e-9 tolerance"}})
+}
+
+
+func raceLogPath() string {
+	if p := os.Getenv("VERIF_RACE_LOG"); p != "" {
+		return p + "." + strconv.Itoa(os.Getpid())
+	}
+	return ""
+}
+
+func init() {
+	driver.Register(&driver.Spec{Prop: "C14", Quick: 16, Thorough: 320, Batch: 1, Race: true, TimeoutPerBatch: 4 * time.Minute,
+		Env: []string{"DEADLOCK_DETECTION_ENABLED=true", "DEADLOCK_TIMEOUT_SECONDS=20"},
+		Run: func(prop string, seed uint64, idx int, tier string, replayDir string, cmdLog *os.File) *det.CaseResult {
+			procs := []int{2, 4, 8, 16}[idx%4]
+			runtime.GOMAXPROCS(procs)
+			o := conc.Opts{Duration: 5 * time.Second, Clients: 3 + idx%4, YieldPermille: []int32{0, 30, 100, 250}[(idx/4)%4], PredDelayUs: 800, Reload: idx%4 >= 2, Rest: true, Gang: false, NodeRemoval: idx%4 == 3, AppRemoval: idx%4 == 1 || idx%4 == 3, RMBound: idx%4 == 3}
+			if tier == "thorough" {
+				o.Duration = 7 * time.Second
+			}
+			r := conc.Run(prop, seed, o, raceLogPath())
+			r.Obs["conc.gomaxprocs_"+strconv.Itoa(procs)]++
+			return r
+		},
+		Rule: "case = one concurrent run of the real core (scheduling loop, three event handlers, proxy, quota preemption loop, health checker every 50 ms, timers) under -race and go-deadlock order detection with 3-6 client goroutines, confirmer, reloader (two configurations alternating), node updater, 3 REST readers; seeded lock-acquire yields (0-25%); GOMAXPROCS 2/4/8/16; then settle and evaluate the quiescent-state oracles; non-trivial = more than 100 client operations and 200 trace events; distinct by sha256 of the per-key callback sequence (distinct interleavings seen by the shim)",
+		Assumptions: []string{"the race detector and go-deadlock are trusted for what they report; only interleavings that were executed are judged", "legal SI traffic only (C13 owns hostile input)", "REST handler panics (net/http recovers them per request) are counted as diagnostics, no property covers them"}})
 }
